@@ -119,6 +119,12 @@ def _real(job):
                 inst = select_univariate(X.copy(), [getattr(U, n) for n in names])
             else:
                 w = U.Univariate(candidates=[getattr(U, n) for n in names])
+                if seed % 2:          # a wrapper that already selected a family for other data selects again
+                    try:
+                        w.fit(np.random.RandomState(seed).uniform(-40.0, -39.0, 60))
+                        w.cumulative_distribution(np.array([-39.5]))
+                    except Exception:
+                        pass
                 w.fit(X.copy())
                 inst = w._instance
             chosen = type(inst).__name__
@@ -158,6 +164,12 @@ def _dispatch(case):
     from ..stubs import PickyGaussian
     n = case['n']
     cols = ['c%d' % i for i in range(1, n + 1)]
+    # column labels need not be strings: integers (as for ndarray input) or tuples for a part of the cases
+    style = (n + len(_set(case['named'])) + len(_set(case['raises']))) % 3
+    if style == 1:
+        cols = [10 * i for i in range(1, n + 1)]
+    elif style == 2:
+        cols = [('t', i) for i in range(1, n + 1)]
     rs = np.random.RandomState(11 + n)
     z = rs.normal(size=(60, n))
     for j in range(1, n):
